@@ -42,7 +42,10 @@ ASSUMPTIONS = [
 ]
 
 DTYPES = ["int", "int32", "int64", "float", "float32", "int16", "int8", "uint8", "uint16", "uint32", "uint64"]
-STR_IDS = ["", "a", "b", "c", "x", "y", "å", "€uro", "名", "a b", " ", "0", "1", "2", "-1", "A", "a1", "Ω"]
+STR_IDS = ["", "a", "b", "c", "x", "y", "å", "€uro", "名", "a b", " ", "0", "1", "2", "-1", "A", "a1", "Ω",
+           # LOOK-ALIKE ids - different strings, hence different ids: the same letter precomposed / with a combining mark /
+           # as a compatibility sign (they share one unicode normal form), and ids that differ in surrounding blanks or case
+           "\u00c5", "A\u030a", "\u212b", "\u00e9", "e\u0301", "\u2126", "a ", " a", "a\t", "B", "\uff41"]
 
 
 def _mods():
@@ -528,7 +531,9 @@ def linalg_case(draw):
     vars_ = draw(_var_list(max_size=6, zero=False))
     n = len(vars_)
     n_rows = draw(st.integers(1, 4))
-    cell = st.one_of(st.integers(-3, 3), st.integers(-10 ** 4, 10 ** 4))
+    # incl. entries beyond the 16-bit "default integer range" of variable bounds and beyond 32 bits (big-M rows, capacities)
+    cell = st.one_of(st.integers(-3, 3), st.integers(-10 ** 4, 10 ** 4), st.integers(-3, 3),
+                     st.sampled_from([32767, 32768, -32768, -32769, 40000, -100000, 2 ** 31, -2 ** 31 - 1, 2 ** 40, -2 ** 45]))
     M = draw(st.lists(st.lists(cell, min_size=n + 1, max_size=n + 1), min_size=n_rows, max_size=n_rows))
     index = draw(st.lists(_id_strategy(), min_size=n_rows, max_size=n_rows, unique_by=_key))
     case = {"m": M, "vars": vars_, "index": index}
